@@ -1,9 +1,50 @@
-import Gzx.Util
+import Gzx.Model.DMHighLevel
+import Gzx.Gen.C02DM
+import Gzx.Gen.DMSymbols
 namespace Gzx.Driver.C02
-open Gzx
+open Gzx Gzx.DMHighLevel
 
-/-- line-protocol handler of suite `c02` (arguments after the suite name) -/
+/-- the decoder's character tables as regenerated from /repo for this run -/
+def genTables : Option Tables :=
+  decodeTables Gen.C02DM.c40Basic Gen.C02DM.c40Shift2 Gen.C02DM.textBasic Gen.C02DM.textShift2 Gen.C02DM.textShift3
+
+/-- the encoder's symbol table as regenerated from /repo for this run -/
+def genSymbols : Option (List SymbolInfo) := decodeSymbols Gen.DMSymbols.symbols
+
+/-- "WxH" or "-" -/
+def parseDim (s : String) : Option (Option (Nat × Nat)) :=
+  if s == "-" then some none
+  else match s.splitOn "x" with
+    | [w, h] => match w.toNat?, h.toNat? with
+      | some w, some h => some (some (w, h))
+      | _, _ => none
+    | _ => none
+
+/-- line-protocol handler of suite `c02` (arguments after the suite name)
+    * `dec <hex codewords>`                       → `<hex text>|m=<symbology modifier>` or `ERR:kind`
+    * `enc <hex text> <shape> <min WxH|-> <max>`  → `<hex codewords>` or `ERR:kind`
+    * `la <hex text> <pos> <mode>`                → mode -/
 def handle : List String → String
+  | ["dec", hex] =>
+    match parseHex? hex, genTables with
+    | some cw, some T =>
+      match decodeFull T cw with
+      | .ok (t, m) => showHex t ++ "|m=" ++ toString m
+      | .error e => "ERR:" ++ e.tag
+    | _, none => "ERR:gen-tables"
+    | none, _ => "bad-op"
+  | ["enc", hex, shape, mn, mx] =>
+    match parseHex? hex, shape.toNat?, parseDim mn, parseDim mx, genSymbols with
+    | some msg, some sh, some mn, some mx, some syms =>
+      match encodeHL syms laFloat msg ⟨sh, mn, mx⟩ with
+      | .ok cw => showHex cw
+      | .error e => "ERR:" ++ e.tag
+    | _, _, _, _, none => "ERR:gen-symbols"
+    | _, _, _, _, _ => "bad-op"
+  | ["la", hex, pos, mode] =>
+    match parseHex? hex, pos.toNat?, mode.toNat? with
+    | some msg, some p, some m => toString (laFloat msg p m)
+    | _, _, _ => "bad-op"
   | _ => "bad-op"
 
 end Gzx.Driver.C02
